@@ -40,7 +40,28 @@ pub const SPECS: &[LangSpec] = &[
   LangSpec { lang: "Html", ext: "html", comments: &[("<!--", "-->")], header: "<div>\n", footer: "</div>\n", stmts: ["<fa></fa>", "<fb></fb>", "<fc></fc>", "<fd></fd>"], patterns: ["<fa></fa>", "<fb></fb>", "<fc></fc>", "<fd></fd>"], sep: " ", indent: "  " },
 ];
 
-const IDS: [&str; 4] = ["r1", "r2", "r3", "r4"];
+const IDS: [&str; 6] = ["r1", "r2", "r3", "r4", "r1b", "a3"];
+/// (rule id, statement it matches): r1b is a twin of r1 and a3 a twin of r3 -- two rules reporting the very
+/// same node, one sorted before and one after its twin, with ids that are prefixes of each other
+const RULES: [(&str, usize); 6] = [("r1", 0), ("r2", 1), ("r3", 2), ("r4", 3), ("r1b", 0), ("a3", 2)];
+
+fn rules_of(stmt: usize) -> impl Iterator<Item = &'static str> {
+  RULES.iter().filter(move |(_, s)| *s == stmt).map(|(id, _)| *id)
+}
+
+/// two-line spelling of statement i: (first line, last line)
+pub fn ml_parts(spec: &LangSpec, i: usize) -> Option<(String, String)> {
+  let st = spec.stmts[i];
+  if let Some(k) = st.find("()") {
+    return Some((st[..k + 1].to_string(), st[k + 1..].to_string()));
+  }
+  match spec.lang {
+    "Html" => st.find("></").map(|k| (st[..k + 1].to_string(), st[k + 1..].to_string())),
+    "Css" => st.split_once(' ').map(|(a, b)| (a.to_string(), b.to_string())),
+    "Bash" => st.split_once(' ').map(|(a, b)| (format!("{a} \\"), b.to_string())),
+    _ => None,
+  }
+}
 
 #[derive(Clone, Debug)]
 pub struct Comment {
@@ -51,7 +72,10 @@ pub struct Comment {
 
 #[derive(Clone, Debug)]
 pub struct Line {
-  /// indices of the statements on this line (each triggers rule i)
+  /// 0: ordinary line; 1: first line of a two/three-line statement (stmts = [i]); 2: a comment on its own
+  /// line inside that statement; 3: its last line
+  pub ml: u8,
+  /// indices of the statements that START on this line (each triggers the rules of statement i)
   pub stmts: Vec<usize>,
   /// trailing comment (when stmts non-empty) or own-line comment (when stmts empty)
   pub comment: Option<Comment>,
@@ -72,8 +96,23 @@ fn comment_text(spec: &LangSpec, c: &Comment) -> String {
 
 pub fn render(spec: &LangSpec, lines: &[Line]) -> String {
   let mut s = String::from(spec.header);
+  let mut open_stmt = 0;
   for l in lines {
     s.push_str(spec.indent);
+    if l.ml == 1 {
+      open_stmt = l.stmts[0];
+      s.push_str(&ml_parts(spec, open_stmt).expect("ml form").0);
+      s.push('\n');
+      continue;
+    }
+    if l.ml == 3 {
+      s.push_str(&ml_parts(spec, open_stmt).expect("ml form").1);
+      s.push('\n');
+      continue;
+    }
+    if l.ml == 2 {
+      s.push_str("  ");
+    }
     let st: Vec<&str> = l.stmts.iter().map(|i| spec.stmts[*i]).collect();
     s.push_str(&st.join(spec.sep));
     if let Some(c) = &l.comment {
@@ -102,8 +141,8 @@ pub fn model(spec: &LangSpec, lines: &[Line]) -> (BTreeSet<(String, usize)>, BTr
     Some(ids) => ids.iter().any(|i| i == rule),
   };
   for (i, l) in lines.iter().enumerate() {
-    for s in &l.stmts {
-      let rule = IDS[*s];
+    for (s, rule) in l.stmts.iter().flat_map(|s| rules_of(*s).map(move |r| (s, r))) {
+      let _ = s;
       let mut suppressed = false;
       // trailing comment on the same line
       if let Some(c) = &l.comment {
@@ -131,8 +170,10 @@ pub fn model(spec: &LangSpec, lines: &[Line]) -> (BTreeSet<(String, usize)>, BTr
 }
 
 pub fn rules_yaml(spec: &LangSpec) -> Vec<String> {
-  (0..4)
-    .map(|i| {
+  RULES
+    .iter()
+    .map(|(id, i)| {
+      let (id, i) = (*id, *i);
       // "@kind^prefix" denotes a kind + regex rule (for grammars where the statement is not a pattern on its own)
       let rule = match spec.patterns[i].strip_prefix('@') {
         Some(kr) => {
@@ -141,7 +182,7 @@ pub fn rules_yaml(spec: &LangSpec) -> Vec<String> {
         }
         None => json!({"pattern": spec.patterns[i]}),
       };
-      serde_json::to_string(&json!({"id": IDS[i], "language": spec.lang, "rule": rule, "message": format!("m{i}")})).unwrap()
+      serde_json::to_string(&json!({"id": id, "language": spec.lang, "rule": rule, "message": format!("m{i}")})).unwrap()
     })
     .collect()
 }
@@ -162,21 +203,74 @@ fn gen_comment(spec: &LangSpec, rng: &mut Rng) -> Comment {
   Comment { ids, style: rng.below(spec.comments.len()) }
 }
 
-pub fn gen_lines(spec: &LangSpec, rng: &mut Rng) -> Vec<Line> {
+/// which multi-line spellings the rules of this language really match (checked once by running them)
+#[derive(Clone, Copy, Default)]
+pub struct MlCap {
+  pub two_line: [bool; 4],
+  pub with_inner_comment: [bool; 4],
+}
+
+pub fn ml_capabilities(spec: &LangSpec) -> MlCap {
+  let mut cap = MlCap::default();
+  let Ok(lang) = spec.lang.parse::<SupportLang>() else { return cap };
+  let Some(rules) = load(&rules_yaml(spec)) else { return cap };
+  for i in 0..4 {
+    if ml_parts(spec, i).is_none() {
+      continue;
+    }
+    for inner in [false, true] {
+      let mut lines = vec![Line { ml: 1, stmts: vec![i], comment: None }];
+      if inner {
+        // an ordinary comment, not a directive
+        lines.push(Line { ml: 2, stmts: vec![], comment: Some(Comment { ids: None, style: 0 }) });
+      }
+      lines.push(Line { ml: 3, stmts: vec![], comment: None });
+      let src = render(spec, &lines).replace("ast-grep-ignore", "just a note");
+      let grep = lang.ast_grep(&src);
+      let scan = CombinedScan::new(rules.iter().collect());
+      let res = scan.scan(&grep, false);
+      let h = header_lines(spec);
+      let found: BTreeSet<(String, usize)> = res.matches.iter().flat_map(|(r, nms)| nms.iter().map(|nm| (r.id.clone(), nm.start_pos().line()))).collect();
+      let want: BTreeSet<(String, usize)> = rules_of(i).map(|r| (r.to_string(), h)).collect();
+      let ok = found == want && res.matches.iter().all(|(_, nms)| nms.iter().all(|nm| nm.end_pos().line() == h + lines.len() - 1));
+      if inner {
+        cap.with_inner_comment[i] = ok;
+      } else {
+        cap.two_line[i] = ok;
+      }
+    }
+  }
+  cap
+}
+
+pub fn gen_lines(spec: &LangSpec, rng: &mut Rng, cap: &MlCap) -> Vec<Line> {
   let n = 3 + rng.below(9);
   let one_per_line = spec.sep == "\u{0}";
   let mut lines = vec![];
   for _ in 0..n {
-    match rng.below(10) {
-      0..=2 => lines.push(Line { stmts: vec![], comment: Some(gen_comment(spec, rng)) }),
+    match rng.below(12) {
+      10 | 11 => {
+        // a statement spread over two or three lines: only comments on their own line can govern it
+        let i = rng.below(4);
+        if !cap.two_line[i] {
+          lines.push(Line { ml: 0, stmts: vec![i], comment: None });
+          continue;
+        }
+        lines.push(Line { ml: 1, stmts: vec![i], comment: None });
+        if cap.with_inner_comment[i] && rng.chance(1, 2) {
+          lines.push(Line { ml: 2, stmts: vec![], comment: Some(gen_comment(spec, rng)) });
+        }
+        lines.push(Line { ml: 3, stmts: vec![], comment: None });
+      }
+      0..=2 => lines.push(Line { ml: 0, stmts: vec![], comment: Some(gen_comment(spec, rng)) }),
       3..=5 => {
         let k = if one_per_line { 1 } else { 1 + rng.below(3) };
         let stmts = (0..k).map(|_| rng.below(4)).collect();
-        lines.push(Line { stmts, comment: Some(gen_comment(spec, rng)) });
+        lines.push(Line { ml: 0, stmts, comment: Some(gen_comment(spec, rng)) });
       }
       _ => {
         let k = if one_per_line { 1 } else { 1 + rng.below(3) };
-        lines.push(Line { stmts: (0..k).map(|_| rng.below(4)).collect(), comment: None });
+        lines.push(Line { ml: 0, stmts: (0..k).map(|_| rng.below(4)).collect(), comment: None });
       }
     }
   }
@@ -193,13 +287,14 @@ fn load(yamls: &[String]) -> Option<Vec<RuleConfig<SupportLang>>> {
 }
 
 fn lines_json(lines: &[Line]) -> Value {
-  Value::Array(lines.iter().map(|l| json!({"stmts": l.stmts, "comment": l.comment.as_ref().map(|c| json!({"ids": c.ids, "style": c.style}))})).collect())
+  Value::Array(lines.iter().map(|l| json!({"ml": l.ml, "stmts": l.stmts, "comment": l.comment.as_ref().map(|c| json!({"ids": c.ids, "style": c.style}))})).collect())
 }
 fn lines_from(v: &Value) -> Vec<Line> {
   v.as_array()
     .unwrap()
     .iter()
     .map(|l| Line {
+      ml: l["ml"].as_u64().unwrap_or(0) as u8,
       stmts: l["stmts"].as_array().unwrap().iter().map(|x| x.as_u64().unwrap() as usize).collect(),
       comment: match &l["comment"] {
         Value::Null => None,
@@ -287,9 +382,11 @@ pub fn check_case(spec: &LangSpec, lines: &[Line], rep: &mut Report) -> bool {
   let mut want_n: BTreeMap<(String, usize), usize> = BTreeMap::new();
   for (i, l) in lines.iter().enumerate() {
     for s in &l.stmts {
-      let k = (IDS[*s].to_string(), i + h);
-      if want_f.contains(&k) {
-        *want_n.entry(k).or_insert(0) += 1;
+      for r in rules_of(*s) {
+        let k = (r.to_string(), i + h);
+        if want_f.contains(&k) {
+          *want_n.entry(k).or_insert(0) += 1;
+        }
       }
     }
   }
@@ -330,10 +427,17 @@ pub fn run(ctx: &Ctx, rep: &mut Report) {
     return;
   }
   let mut rng = ctx.rng("c14");
-  let n = ctx.budget(6000, 300000);
+  let n = ctx.budget(30000, 600000);
+  let caps: Vec<MlCap> = SPECS.iter().map(ml_capabilities).collect();
+  for (spec, cap) in SPECS.iter().zip(&caps) {
+    rep.count(&format!("multi_line_forms.{}", spec.lang), (cap.two_line.iter().filter(|b| **b).count() + cap.with_inner_comment.iter().filter(|b| **b).count()) as u64);
+  }
   for i in 0..n {
     let spec = &SPECS[(i + ctx.shard) % SPECS.len()];
-    let lines = gen_lines(spec, &mut rng);
+    let lines = gen_lines(spec, &mut rng, &caps[(i + ctx.shard) % SPECS.len()]);
+    if lines.iter().any(|l| l.ml == 1) {
+      rep.count("cases_with_multi_line_statement", 1);
+    }
     rep.evaluations += 1;
     if check_case(spec, &lines, rep) {
       rep.nontrivial(hash_str(&format!("{}{}", spec.lang, render(spec, &lines))));
@@ -350,13 +454,25 @@ pub fn files(ctx: &Ctx, rep: &mut Report) {
   let mut rng = ctx.rng("c14-files");
   let n = ctx.args.iter().find_map(|a| a.strip_prefix("n=").and_then(|v| v.parse::<usize>().ok())).unwrap_or(40);
   let mut out = vec![];
+  let caps: Vec<MlCap> = SPECS.iter().map(ml_capabilities).collect();
   for i in 0..n {
     let spec = &SPECS[i % SPECS.len()];
-    let lines = gen_lines(spec, &mut rng);
+    let lines = gen_lines(spec, &mut rng, &caps[i % SPECS.len()]);
     let (f, u) = model(spec, &lines);
     let h = header_lines(spec);
     let known: Vec<String> = (0..lines.len() + h).filter_map(|l| attribute(spec, &lines, h, l).map(|s| format!("{l}:{s}"))).collect();
-    out.push(json!({"lang": spec.lang, "ext": spec.ext, "source": render(spec, &lines), "rules": rules_yaml(spec),
+    // findings with multiplicity (two statements of one rule on a line are two findings)
+    let mut multi = vec![];
+    for (li, l) in lines.iter().enumerate() {
+      for st in &l.stmts {
+        for r in rules_of(*st) {
+          if f.contains(&(r.to_string(), li + h)) {
+            multi.push(json!([r, li + h]));
+          }
+        }
+      }
+    }
+    out.push(json!({"lang": spec.lang, "ext": spec.ext, "source": render(spec, &lines), "rules": rules_yaml(spec), "findings_multi": multi,
       "findings": f.iter().map(|(r, l)| json!([r, l])).collect::<Vec<_>>(), "unused": u.iter().collect::<Vec<_>>(), "known_lines": known,
       "lines": lines_json(&lines)}));
   }
